@@ -396,3 +396,48 @@ def gen_akn_tree(rng, depth=0, pool=None, maxdepth=5, ids=True):
             if rng.random() < 0.08:
                 kids.append(['T', rng.choice(['tail', ' '])])
     return ['E', tag, attrs, kids]
+
+def gen_post_tree(rng, depth=0, maxdepth=5):
+    """AKN-shaped trees with footnote references/blocks (displaced), removable empties, attachments with headings,
+    and text/tails everywhere - for the post stage (also trees the parser never produces)."""
+    r = rng.random()
+    if depth == 0:
+        tag = rng.choice(['body', 'mainBody', 'act', 'doc'])
+    elif r < 0.16: tag = 'displaced'
+    elif r < 0.30: tag = 'authorialNote'
+    elif r < 0.40: tag = rng.choice(['crossHeading', 'longTitle', 'content', 'preface', 'preamble', 'conclusions'])
+    elif r < 0.48: tag = 'attachment'
+    elif r < 0.70: tag = rng.choice(['p', 'section', 'paragraph', 'hcontainer', 'item', 'blockList', 'td', 'tr', 'table', 'i', 'b'])
+    else: tag = rng.choice(['heading', 'num', 'intro', 'wrapUp', 'listIntroduction', 'doc', 'meta', 'ref', 'subheading'])
+    attrs = []
+    marker = rng.choice(['1', '2', '*', 'a', '1'])
+    if tag == 'displaced':
+        if rng.random() < 0.95: attrs.append(['marker', marker])
+        if rng.random() < 0.97: attrs.append(['name', rng.choice(['footnote', 'footnote', 'footnote', 'endnote'])])
+    elif tag == 'authorialNote':
+        if rng.random() < 0.95: attrs.append(['marker', marker])
+        attrs.append(['placement', 'bottom'])
+        if rng.random() < 0.85: attrs.append(['displaced', rng.choice(['footnote', 'footnote', 'footnote', 'endnote'])])
+    elif rng.random() < 0.1:
+        attrs.append(['class', 'c'])
+    kids = []
+    if rng.random() < 0.25:
+        kids.append(['T', rng.choice(['txt', ' ', 'lead'])])
+    if tag == 'meta':
+        kids.append(['E', 'identification', [], [['E', 'FRBRWork', [], [['E', 'FRBRalias', [['value', 'Untitled'], ['name', 'title']], []],
+                                                                       ['E', 'FRBRalias', [['value', 'x'], ['name', rng.choice(['title', 'short'])]], []]]]]])
+        return ['E', tag, attrs, kids]
+    if tag == 'attachment':
+        if rng.random() < 0.7:
+            kids.append(['E', 'heading', [], [['T', 'Head '], ['E', 'b', [], [['T', 'bold']]], ['T', ' tail']]])
+        if rng.random() < 0.2:
+            kids.append(['E', 'heading', [], [['T', 'second']]])
+    if depth < maxdepth:
+        n = rng.choice([0, 0, 1, 1, 2, 3]) if depth > 0 else rng.randint(2, 6)
+        if tag in ('crossHeading', 'longTitle', 'content', 'preface', 'preamble', 'conclusions') and rng.random() < 0.6:
+            n = 0; kids = []
+        for _ in range(n):
+            kids.append(gen_post_tree(rng, depth + 1, maxdepth))
+            if rng.random() < 0.2:
+                kids.append(['T', rng.choice(['tail', ' ', 't2'])])
+    return ['E', tag, attrs, kids]
